@@ -338,6 +338,8 @@ SrcOf(W, op) == IF op.src = "S" THEN W.s ELSE W.t
 Apply(W, op) ==
    LET S == W.t IN
    CASE op.name = "add_child"       -> DoAdd(S, op.p, op.d, op.xid, op.k, op.pos, "add")
+     [] op.name = "add_child_nid"   ->   \* add_child(data, node_id=<the node_id of existing node op.x>): node ids stay unique
+            Refuse(S, AnyErr, "add:dup_node_id")
      [] op.name = "append_child"    -> DoAdd(S, op.p, op.d, op.xid, op.k, PosNone, "append_child")
      [] op.name = "prepend_child"   -> DoAdd(S, op.p, op.d, op.xid, op.k, FirstChildPos(S, op.p), "prepend_child")
      [] op.name = "prepend_sibling" ->   \* typed: "a new node of same kind"
